@@ -32,6 +32,10 @@ def run(ctx):
     ctx.rule("R06.q", "depends model, batch rebind: Parameters._update_deps('sub') -> _call_watcher(rebuilt watcher, second event) -> _batch_call_watchers interpreted in sequence with a batch open and the "
                       "method's watcher on the path root already queued by an earlier replacement of the same batch: the flush executes exactly one watcher on behalf of the method (once per batch), "
                       "and a watcher of another party queued alongside still runs once", floor=1)
+    ctx.rule("R06.m", "depends model, instance binding: _resolve_mcs_deps interpreted for class-level dependencies naming one parameter under two kinds ('p' and 'p:bounds', both orders), another "
+                      "parameter and a foreign class's: one entry out per entry in, bound to the instance, each with its OWN name and kind", floor=1)
+    ctx.rule("R06.t", "slot dispatch model: Parameter._trigger_event interpreted for an instance-level and a class-level Parameter x the owner's batch open / closed: the watchers of a slot "
+                      "('p:bounds' dependants) go through the OWNER's namespace -- queued while its batch is open, flushed there otherwise", floor=1)
     ctx.rule("R06.c", "the construction path reaches the installation: Parameterized.__init__ calls param._update_deps(init=True) after the values were set, and the depends decorator records "
                       "watch / on_init / the dependency list in _dinfo, the only thing the metaclass reads", floor=2)
     ctx.not_decided += ["that a watcher runs its callback once per batch and only on a change (C05 / C03 decide that for every watcher, these included)",
@@ -65,3 +69,6 @@ def run(ctx):
     depends_model.report_method_recursion(ctx, "R06.r")
     depends_model.report(ctx, "R06.a", "R06.b")
     depends_model.report_batch_rebind(ctx, "R06.q")
+    depends_model.report_resolve_mcs(ctx, "R06.m")
+    from checks.shared import trigger_event_model
+    trigger_event_model(ctx, "R06.t")
